@@ -637,10 +637,18 @@ func (ex *Exec) cancelCtx(g *G, c *CtxObj, err Value) {
 }
 
 func (ex *Exec) cancelFunc(c *CtxObj) Value {
-	return FuncV{Native: &NativeFn{Name: "cancel", Visible: true, Call: func(ex *Exec, g *G, args []Value) Value {
+	return FuncV{Native: &NativeFn{Name: "cancel", Visible: true, Objs: func() []int { return ctxTreeIDs(c) }, Call: func(ex *Exec, g *G, args []Value) Value {
 		ex.cancelCtx(g, c, ex.canceledErr())
 		return nil
 	}}}
+}
+
+func ctxTreeIDs(c *CtxObj) []int {
+	ids := []int{c.done.id}
+	for _, ch := range c.children {
+		ids = append(ids, ctxTreeIDs(ch)...)
+	}
+	return ids
 }
 
 func (ex *Exec) mutex(v Value) *mutexState {
@@ -650,7 +658,8 @@ func (ex *Exec) mutex(v Value) *mutexState {
 	}
 	m, ok := ex.mutexes[p.L]
 	if !ok {
-		m = &mutexState{}
+		ex.nobj++
+		m = &mutexState{id: ex.nobj}
 		ex.mutexes[p.L] = m
 	}
 	return m
@@ -660,7 +669,8 @@ func (ex *Exec) wg(v Value) *wgState {
 	p := v.(Ptr)
 	w, ok := ex.wgs[p.L]
 	if !ok {
-		w = &wgState{}
+		ex.nobj++
+		w = &wgState{id: ex.nobj}
 		ex.wgs[p.L] = w
 	}
 	return w
